@@ -326,7 +326,7 @@ class Instrs(CallsMixin):
     def op_MakeInterface(self, st, fr, b, i, ins):
         x = self.operand(st, fr, ins['x'])
         v = V.box(self.types, x, st)
-        self.setreg(st, ins, Val(ins['type'], v.lv))
+        self.setreg(st, ins, Val(ins['type'], v.lv, loc=v.loc))
 
     def op_TypeAssert(self, st, fr, b, i, ins):
         types = self.types
@@ -487,6 +487,15 @@ class Instrs(CallsMixin):
         ln = self.operand(st, fr, ins['len']).term
         cp = self.operand(st, fr, ins['cap']).term
         self.panic_check(st, fr, ins, z3.And(ln >= 0, ln <= cp), 'makeslice')
+        ab = self.cx.contract.opts.get('alloc-bound')
+        if ab and fr is self.cx.top:
+            pos = ins.get('pos') or {}
+            cnt = self.cx.panic_ord.setdefault((fr.fnkey, 'alloc'), {})
+            ck = (pos.get('line'), pos.get('col'))
+            if ck not in cnt:
+                cnt[ck] = len(cnt)
+            self.cx.prove(st, cp <= int(ab), '%s.alloc-bound#%d' % (self.cx.short, cnt[ck]), 'alloc-bound', ins.get('pos'),
+                          'allocation of at most %s elements' % ab, assume_after=False)
         rt = ins['type']
         et = types.elem(rt)
         ref = st.new_ref('make')
